@@ -14,7 +14,9 @@ def parse(lines):
   for t in lines:
     f = t.split("\t")
     if f[0] == "S": g["S"].add(f[1])
-    elif f[0] == "E": g["E"][f[1]] = ((f[2][:-1], f[2][-1]), (f[3][:-1], f[3][-1]))
+    elif f[0] == "E":
+      key = f[1] if f[1] != "*" else "*#%d" % len([k for k in g["E"] if k.startswith("*#")])   # anonymous edges are distinct
+      g["E"][key] = ((f[2][:-1], f[2][-1]), (f[3][:-1], f[3][-1]))
     elif f[0] == "G": g["G"].add(f[1])
     elif f[0] == "O":
       g["O"].setdefault(f[1], []).extend((x[:-1], x[-1]) for x in f[2].split(" "))
